@@ -228,7 +228,10 @@ def _ens(sym_):
         if exp[0] == 'pow':
             a, b = exp[1], exp[2]
             if is_sym(a) or is_sym(b):
-                return Implies(_pow_defined(a, b), spec.is_number(o, M.py_pow_spec(a, b)))
+                # a result beyond the range of a double is #NUM! - which can only happen for |base| >= 2 and an exponent >= 1
+                # (whether a given power really is beyond the range is arithmetic the bounded layer checks)
+                big = And(Or(a >= 2, a <= -2), b >= 1)
+                return Implies(_pow_defined(a, b), Or(spec.is_number(o, M.py_pow_spec(a, b)), And(spec.is_error(o, 'NumExcelError'), big)))
             try:
                 return (not _pow_defined(a, b)) or spec.is_number(o, float(a) ** float(b), tol=1e-9) or abs(float(a) ** float(b)) > 1e300
             except OverflowError:
